@@ -421,7 +421,14 @@ impl SymExpr {
                     // x / b / c => x / (b * c)
                     (SymExpr::Div(lhs, c1), c2) => match (&*c1, c2) {
                         (SymExpr::Value(c1), SymExpr::Value(c2)) if *c1 != 0 && c2 != 0 => {
-                            (*lhs).clone() / SymExpr::Value(c1 * c2)
+                            match c1.checked_mul(c2) {
+                                Some(c) => (*lhs).clone() / SymExpr::Value(c),
+                                // Leave the divisions nested if the combined
+                                // divisor does not fit in an `i32`.
+                                None => {
+                                    ((*lhs).clone() / SymExpr::Value(*c1)) / SymExpr::Value(c2)
+                                }
+                            }
                         }
                         (c1, c2) => (*lhs).clone() / (c1.clone() * c2),
                     },
@@ -450,7 +457,14 @@ impl SymExpr {
                     // and c > 0.
                     (SymExpr::DivCeil(lhs, c1), c2) => match (&*c1, c2) {
                         (SymExpr::Value(c1), SymExpr::Value(c2)) if *c1 > 0 && c2 > 0 => {
-                            lhs.div_ceil(&SymExpr::Value(c1 * c2))
+                            match c1.checked_mul(c2) {
+                                Some(c) => lhs.div_ceil(&SymExpr::Value(c)),
+                                // Leave the divisions nested if the combined
+                                // divisor does not fit in an `i32`.
+                                None => lhs
+                                    .div_ceil(&SymExpr::Value(*c1))
+                                    .div_ceil(&SymExpr::Value(c2)),
+                            }
                         }
                         (c1, c2) => lhs.div_ceil(&(c1.clone() * c2)),
                     },
